@@ -21,6 +21,7 @@ import AdaptaVerif.Spec.Frame
 import AdaptaVerif.Lemmas.FrameGeom
 import AdaptaVerif.Lemmas.FrameRoute
 import AdaptaVerif.Lemmas.FrameCost
+import AdaptaVerif.Lemmas.FramePin
 import AdaptaVerif.Lemmas.FrameVpsc
 import AdaptaVerif.Lemmas.FrameScan
 import AdaptaVerif.Lemmas.FrameExample
@@ -29,7 +30,7 @@ namespace AdaptaVerif.Props.C20
 open AdaptaVerif.Model.Geometry AdaptaVerif.Model.Frame AdaptaVerif.Spec.Frame
 open AdaptaVerif.Lemmas
 open AdaptaVerif.Lemmas.FrameExample (exP exX)
-open AdaptaVerif.Model.RouteCost
+open AdaptaVerif.Model.RouteCost AdaptaVerif.Model.PinCone
 
 /-! ## (1) geometry predicates -/
 
@@ -213,6 +214,42 @@ theorem optimal_orth_path_cost_frame_invariant (F : Frame) (seg rev : Rat) (sc :
 -- edges, across to (3,-2), down to (3,4), back to (0,4): the two upward edges are the reversing ones
 example : revEdges ⟨0, 0⟩ ⟨0, 4⟩ [⟨0, 0⟩, ⟨0, -1⟩, ⟨0, -2⟩, ⟨3, -2⟩, ⟨3, 4⟩, ⟨0, 4⟩] = 2 := by
   simp [revEdges, reverses, axisReverses, dimDir]
+  norm_num
+
+/-! ## (2c) the pin-cone rule of `ConnEnd::assignPinVisibilityTo` (portDirectionPenalty)
+
+`Model/PinCone.lean`: the edge from a connector end attached to a pin CLASS to one of the class's pins costs
+`max(0.001, connectionCost + portDirectionPenalty·[the other end lies in none of the 90° cones of the pin's directions])`,
+the cone test looking at `target − pinPosition`. -/
+
+/-- translating pin and target together never changes the verdict (the rule is a function of target − pin): all
+    positions, all direction flags, no side condition -/
+theorem pin_cone_rule_translation_invariant (t : Pt) (d : Dirs) (pin target : Pt) :
+    pinSeesTarget d ((Frame.translation t).act pin) ((Frame.translation t).act target) = pinSeesTarget d pin target :=
+  FramePin.pinSeesTarget_translate t d pin target
+
+/-- in every frame (8 symmetries, then any translation), with the pin's direction flags transformed by the symmetry, the
+    verdict is the same — for every pin position and every target other than the pin position itself (the zero vector
+    is assigned to the right cone by `rotationalAngle`, which no symmetry respects) -/
+theorem pin_cone_rule_frame_invariant (F : Frame) (d : Dirs) (pin target : Pt) (hne : target ≠ pin) :
+    pinSeesTarget (d.act F.sym) (F.act pin) (F.act target) = pinSeesTarget d pin target :=
+  FramePin.pinSeesTarget_act F d pin target hne
+
+example : (⟨3, 4⟩ : Pt) ≠ ⟨0, 0⟩ := by decide
+
+/-- hence the cost of the pin edge is frame-independent -/
+theorem pin_edge_cost_frame_invariant (F : Frame) (pen cc : Rat) (d : Dirs) (pin target : Pt) (hne : target ≠ pin) :
+    pinEdgeExtra pen cc (d.act F.sym) (F.act pin) (F.act target) = pinEdgeExtra pen cc d pin target := by
+  unfold pinEdgeExtra
+  rw [FramePin.pinSeesTarget_act F d pin target hne]
+
+/-- the subtraction matters: the variant that looks at the target from the ORIGIN (`rotationalAngle(target)`) is not
+    translation invariant — a pin at (0,0) looking right, the target at (5,1): seen; both moved by (−10,0): not seen -/
+theorem pin_cone_from_origin_not_translation_invariant :
+    pinSeesTargetFromOrigin ⟨false, false, false, true⟩ ⟨0, 0⟩ ⟨5, 1⟩ = true ∧
+    pinSeesTargetFromOrigin ⟨false, false, false, true⟩ ((Frame.translation ⟨-10, 0⟩).act ⟨0, 0⟩)
+      ((Frame.translation ⟨-10, 0⟩).act ⟨5, 1⟩) = false := by
+  simp [pinSeesTargetFromOrigin, inCone, coneRight, cone0, Frame.translation, Frame.act, Sym.apply]
   norm_num
 
 /-! ## (3) VPSC -/
